@@ -111,6 +111,7 @@ func recacheAggregatorContext(ctx sdk.Context, agc *aggregator.AggregatorContext
 		setCommonParams(p)
 	} else {
 		prev := int64(0)
+		replayedNonce := make(map[string]int32)
 		for ; from < to; from++ {
 			// fill params
 			for b, p = range recentParamsMap {
@@ -127,12 +128,19 @@ func recacheAggregatorContext(ctx sdk.Context, agc *aggregator.AggregatorContext
 
 			if msgs := recentMsgs[from]; msgs != nil {
 				for _, msg := range msgs {
+					// the nonce of a message is not persisted; give every replayed message of a
+					// validator and feeder its own (consecutive) nonce, otherwise the filter takes
+					// the second and later reports of a validator in one window for duplicates of
+					// the first and a restarted node forgets them.
+					nonceKey := msg.Validator + "/" + strconv.FormatUint(msg.FeederID, 10)
+					replayedNonce[nonceKey]++
 					// these messages are retreived for recache, just skip the validation check and fill the memory cache
 					//nolint
 					agc.FillPrice(&types.MsgCreatePrice{
 						Creator:  msg.Validator,
 						FeederID: msg.FeederID,
 						Prices:   msg.PSources,
+						Nonce:    replayedNonce[nonceKey],
 					})
 				}
 			}
